@@ -34,7 +34,11 @@ let run_reuse (parts : string list) : string =
         | CDone OErr -> "E"
         | CDone OCancel -> "C"
         | _ -> "P" in
-      let xs = String.concat "," (List.map oc (outcomes s)) in
+      (* exchanges started with a dead ctx: error and cancel are one class (see c06.go) *)
+      let starts = List.filter (fun e -> e = "S" || e = "SC") evs in
+      let oc2 i o = let r = oc o in
+        if (try List.nth starts i = "SC" with _ -> false) && (r = "C" || r = "E") then "X" else r in
+      let xs = String.concat "," (List.mapi oc2 (outcomes s)) in
       Printf.sprintf "x=%s dials=%d idle=%d conns=%d maxout=%d dirty=%d || spec=%s" xs
         (int_of_nat (nconn s)) (int_of_nat (obs_idle s)) (int_of_nat (obs_conns s))
         (int_of_nat (obs_maxout s)) (b2i (obs_dirty s))
